@@ -35,6 +35,9 @@ def make_scenario(rng):
                 size = rng.choice([0, 1, 10, frame_max - 9, frame_max - 8, frame_max - 7, 2 * (frame_max - 8), 2 * frame_max + 5,
                                    rng.randint(0, 3 * frame_max)])
                 ops.append(('publish', ch, size, rng.randint(0, 255)))
+            elif k < 0.68:
+                # text whose encoded length differs from its character count
+                ops.append(('publish-text', ch, rng.choice([1, 5, 300, frame_max // 2 - 3, frame_max]), rng.choice(['é', '€', 'a€'])))
             elif k < 0.75:
                 ops.append(('ack', ch, rng.randint(1, 9)))
             elif k < 0.9:
@@ -78,6 +81,8 @@ def run_one(args):
                 for op in ops:
                     if op[0] == 'publish':
                         chans[op[1]].basic.publish(bytes([op[3]]) * op[2], 'rk%d' % op[1])
+                    elif op[0] == 'publish-text':
+                        chans[op[1]].basic.publish(op[3] * op[2], 'rk%d' % op[1])
                     elif op[0] == 'ack':
                         chans[op[1]].basic.ack(op[2])
                     elif op[0] == 'declare':
@@ -93,7 +98,8 @@ def run_one(args):
     aio.IO.write_to_socket = traced
     try:
         chooser = vrt.ReplayChooser(choices) if choices is not None else None
-        ctx = vrt.run_scenario(scenario, refbroker.factory(policy), seed=seed, chooser=chooser,
+        plan = vrt.FaultPlan(send_modes=(('full', 5), ('partial', 4), ('eagain', 1), ('timeout', 1)), timeout_advances=False)
+        ctx = vrt.run_scenario(scenario, refbroker.factory(policy), seed=seed, chooser=chooser, plan=plan,
                                p_preempt=0.15, p_jump=0.1, fair_time=(seed % 2 == 1), repo_path=str(common.REPO))
     finally:
         aio.IO.write_to_socket = orig
